@@ -244,6 +244,21 @@ class Named:
         self.short_name = short_name
 
 
+def _p_undescribed_trouble_code():
+    # one DTC-DOP object decodes a trouble code its description does not list - again and again
+    from contracts import build as B
+    d = B.dtc_dop("dtcs_sm", [B.dtc(0x1234, "P1234")])
+    B.response([B.coded_const("sid", 0x59, 0), B.value_param("code", d)], "resp_sm")  # (resolves the references)
+    return lambda: d.decode_from_pdu(DecodeState(coded_message=b"\x77\x77"))
+
+
+def _p_unknown_dtc_name():
+    from contracts import build as B
+    d = B.dtc_dop("dtcs_sm2", [B.dtc(0x1234, "P1234")])
+    B.response([B.coded_const("sid", 0x59, 0), B.value_param("code", d)], "resp_sm2")
+    return lambda: d.convert_to_numerical_trouble_code("P9999")
+
+
 PROBLEMS = {
     "illegal-string-encoding": _p_illegal_string_encoding,
     "illegal-int-encoding-encode": _p_illegal_int_encoding_encode,
@@ -258,6 +273,8 @@ PROBLEMS = {
     "ambiguous-snref": _p_ambiguous_snref,
     "constant-that-does-not-fit": _p_constant_that_does_not_fit,
     "illegal-boolean-text": _p_illegal_boolean_text,
+    "undescribed-trouble-code": _p_undescribed_trouble_code,
+    "unknown-dtc-name": _p_unknown_dtc_name,
 }
 
 
